@@ -10,9 +10,11 @@
     history; the element type never occurs (the code is parametric in it), except for
     IterCopied whose items are the element values (abstract type [A], so ZSTs included).
 
-    NOT YET PROVED: (nothing planned in DESIGN section 4 for C08 is missing.)  Not
-    stated: the list-vocabulary reading of rchunks/windows contents (only chunks has one,
-    [C08_chunks_contents]). *)
+    NOT YET PROVED: nothing of the plan in DESIGN section 4 (C08) is missing.  The
+    list-vocabulary reading is direct for chunks and windows ([C08_chunks_contents],
+    [C08_windows_contents]); rchunks / the exact variants are reduced to chunks by
+    [C08_rchunks_mirror], [C08_mirror_is_reversal], [C08_chunks_exact_cut] rather than
+    given their own recursive list functions. *)
 From KV Require Import Base.Prelude Base.Deque Model.SliceIter Spec.SliceIter Proofs.SliceIterProofs.
 
 (** ** every interleaving of front/back calls: same items, same order, same end, no panic *)
@@ -188,6 +190,37 @@ Theorem C08_views_inside : forall n len, 1 <= n -> 0 <= len ->
   inside len (chunks_exact_rem n len) /\ inside len (rchunks_exact_rem n len).
 Proof. exact specs_inside. Qed.
 
+(** ** the formulas read on lists (element type abstract) *)
+
+(** chunks(n) of a list = its first n elements, then chunks(n) of the rest; the chunks tile it *)
+Theorem C08_chunks_contents : forall (A : Type) n (l : list A), 1 <= n ->
+  map (sub l) (chunks_spec n (zlen l)) = chunks_list (length l) (Z.to_nat n) l.
+Proof. exact chunks_contents. Qed.
+Theorem C08_chunks_tile : forall (A : Type) n (l : list A), 1 <= n ->
+  concat (map (sub l) (chunks_spec n (zlen l))) = l.
+Proof. exact chunks_tile. Qed.
+(** windows(n) of a list = its first n elements, then windows(n) of its tail *)
+Theorem C08_windows_contents : forall (A : Type) n (l : list A), 1 <= n ->
+  map (sub l) (windows_spec n (zlen l)) = windows_list (length l) (Z.to_nat n) l.
+Proof. exact windows_contents. Qed.
+(** rchunks / rchunks_exact = chunks / chunks_exact counted from the other end, and that
+    is chunking the reversed list *)
+Theorem C08_rchunks_mirror : forall n len,
+  rchunks_spec n len = map (mirror len) (chunks_spec n len).
+Proof. exact rchunks_is_mirrored_chunks. Qed.
+Theorem C08_rchunks_exact_mirror : forall n len, 1 <= n -> 0 <= len ->
+  rchunks_exact_spec n len = map (mirror len) (chunks_exact_spec n len) /\
+  rchunks_exact_rem n len = mirror len (chunks_exact_rem n len).
+Proof. exact rchunks_exact_is_mirrored_chunks_exact. Qed.
+Theorem C08_mirror_is_reversal : forall (A : Type) (l : list A) v, inside (zlen l) v ->
+  sub (rev l) v = rev (sub l (mirror (zlen l) v)).
+Proof. exact @sub_mirror. Qed.
+(** chunks_exact = chunks of the slice cut down to a multiple of n; remainder = the rest *)
+Theorem C08_chunks_exact_cut : forall n len, 1 <= n -> 0 <= len ->
+  chunks_exact_spec n len = chunks_spec n (len / n * n) /\
+  chunks_exact_rem n len = mkv (len / n * n) (len - len / n * n).
+Proof. exact chunks_exact_is_chunks_of_cut. Qed.
+
 Print Assumptions C08_iter_refines.
 Print Assumptions C08_iter_rev_refines.
 Print Assumptions C08_iter_copied_refines.
@@ -221,3 +254,10 @@ Print Assumptions C08_rev_rev_id.
 Print Assumptions C08_copy_is_value.
 Print Assumptions C08_copy_same_future.
 Print Assumptions C08_views_inside.
+Print Assumptions C08_chunks_contents.
+Print Assumptions C08_chunks_tile.
+Print Assumptions C08_windows_contents.
+Print Assumptions C08_rchunks_mirror.
+Print Assumptions C08_rchunks_exact_mirror.
+Print Assumptions C08_mirror_is_reversal.
+Print Assumptions C08_chunks_exact_cut.
